@@ -709,7 +709,7 @@ func runC17(ctx *h.Ctx) int {
 		})
 	}
 	return ctx.Finish(
-		"(a) the same input+options (valid files with every construct; invalid: unknown font id with the two-font config, unknown default font, a deleted token, missing switches; named format() parameters) compiled 20x (200x for map-order-sensitive classes) in one process, interleaved with other inputs and with 15 other workers compiling concurrently, and 3x in fresh CLI processes: output bytes and error value (message and positions) identical. (b) every top-level statement compiled alone emits exactly the blocks it contributes to the whole file, after replacing hoisted text/movement label names by a hash of the content they denote; the whole file emits nothing else. (c, thorough) the same workload from 16 goroutines under the race detector: reports are counted. distinct = (class, size classes)",
+		"(a) the same input+options (valid files with every construct; invalid: unknown font id with the two-font config, unknown default font, a deleted token, missing switches; named format() parameters) compiled 20x (200x for map-order-sensitive classes) in one process, interleaved with other inputs and with 15 other workers compiling concurrently, and 3x in fresh CLI processes: output bytes and error value (message and positions) identical. (b) every top-level statement compiled alone emits exactly the blocks it contributes to the whole file, after replacing hoisted text/movement label names by a hash of the content they denote; the whole file emits nothing else; the same for files of 65-200 (thorough: up to 1150) statements of one kind around ordinary ones (sub-check many-statements: a file rejected although each statement compiles alone is a violation). (c, thorough) the same workload from 16 goroutines under the race detector: reports are counted. distinct = (class, size classes)",
 		ctx.N(300, 3000),
 		[]string{"blocks = blank-line separated runs of output lines; chunk order inside a script depends only on that script"})
 }
